@@ -37,7 +37,9 @@ def _vs_job(args):
             try:
                 r = vsem.run_program(p, fam)
             except Exception as e:  # noqa
-                r = [f'harness exception {type(e).__name__}: {e}']
+                from lib.errors import describe, is_library
+                # an operation of the data type that raises where the contract defines a result is a finding, not a harness failure
+                r = [('raises ' if is_library(describe(e)) else 'harness exception ') + describe(e, 200)]
             if r is None:
                 continue
             n += 1
